@@ -94,6 +94,10 @@ class RunTaskExecutable(Operation):
             }
             if slot is not None:
                 env_vars[SLOT_ENV_VARIABLE_NAME] = str(slot)
+            else:
+                # Conductor itself may be running inside a task of an enclosing
+                # `cond run`; that task's slot must not leak into this task.
+                env_vars.pop(SLOT_ENV_VARIABLE_NAME, None)
 
             if self._record_output:
                 if slot is None:
